@@ -24,7 +24,7 @@ ASSUMPTIONS = ["the root id is never put into the assumption dictionary (assume(
 def case_strategy(draw, tier):
     c = draw(common.model_case(guard=800 if tier == "quick" else 3000, n_points=(12, 32), depth=3 if tier == "quick" else 4,
                                allow_fix=True, allow_const_leaves=True,
-                               profile=draw(st.sampled_from(["small", "small", "small", "large"]))))
+                               profile=draw(st.sampled_from(["small", "small", "small", "large", "huge"]))))
     lv = oracle.spec_leaves(c["model"])
     ids = sorted(lv)
     dl = []
